@@ -159,6 +159,9 @@ func actionName(a k8stesting.Action) string {
 }
 
 func (s *SimAPI) record(c Call) {
+	if c.Resource == "events" {
+		return
+	}
 	s.mu.Lock()
 	s.batch = append(s.batch, c)
 	s.mu.Unlock()
